@@ -34,6 +34,9 @@ def configs(tier, seed):
         dict(name="helpers", h="helpers", nS=2, nT=2 if q else 3, D=1 if q else 2, N=2 if q else 3, T=3),
         dict(name="control-copy kernel", h="kernel", nT=3, D=2, N=3),
         dict(name="combo arity1 symbolic-ids", h="combo1", nS=2, nT=3, D=2, N=2, symbolic_ids=True),
+        # rows not grouped by sample (first and last row of one sample, another one in between)
+        dict(name="combo arity2, %d rows, every sample pattern" % (4 if q else 5), h="combo2", nS=2 if q else 3, nT=3, D=1, N=4 if q else 5, symbolic_ids="samples"),
+        dict(name="combo arity1, 4 rows, every sample pattern", h="combo1", nS=2, nT=3, D=1, N=4, symbolic_ids="samples"),
     ]
     for T in ((65, 130) if q else (1, 2, 7, 33, 64, 65, 100, 128, 129, 130, 257, 300)):
         out.append(dict(name="helpers on %d posterior samples" % T, h="helpers_many", T=T, N=2, nT=2))
@@ -119,6 +122,13 @@ def _ids(ctx, N, nS, nT, arity=2, symbolic=False):
     s = [ctx.int("s%d" % i, 0, nS - 1) for i in range(N)]
     a = [ctx.int("a%d" % i, -1, nT - 1) for i in range(N)]
     b = [ctx.int("b%d" % i, -1, nT - 1) for i in range(N)] if arity == 2 else None
+    if symbolic == "samples":
+        # longer screens: the sample of every row is solver-chosen, the treatments are a fixed pattern (controls in either slot)
+        pat = [(0, 1), (1, -1), (-1, 0), (nT - 1, 0), (-1, -1)]
+        s = [int(x) for x in s]
+        a = [pat[i % len(pat)][0] for i in range(N)]
+        b = [pat[i % len(pat)][1] for i in range(N)] if arity == 2 else None
+        return s, a, b
     if not symbolic:
         s, a = [int(x) for x in s], [int(x) for x in a]
         b = [int(x) for x in b] if b is not None else None
